@@ -1,1 +1,3 @@
 import OdfProofs.Coord
+import OdfProofs.Addr
+import OdfProofs.Codec
